@@ -249,6 +249,7 @@ pub fn run(ctx: &mut Ctx) {
     ctx.cases("api", ctx.n(20000, 600000), 0, api_case);
     let knobs = SysKnobs { crashes: false, randoms: false, ..SysKnobs::default() };
     ctx.cases("transport", ctx.n(2500, 40000), 0, |case| transport_case(case, &knobs));
-    let four = SysKnobs { crashes: false, randoms: false, max_actors: 4, ..SysKnobs::default() };
+    // (crashes on here: a message sent to a crashed actor still has to enter the network)
+    let four = SysKnobs { crashes: true, randoms: false, max_actors: 4, ..SysKnobs::default() };
     ctx.cases("transport_four_actors", ctx.n(600, 10000), 0, |case| transport_case(case, &four));
 }
